@@ -16,7 +16,10 @@ RULE = ("corpus (5 hand-written instances incl. tests/test_pedigreephasing.py::t
         "--distrust-genotypes with GL-less VCFs and default/explicit --default-gq; default or explicit --recombrate; with or "
         "without genetic haplotyping; reads with sequencing errors and varying base qualities; --internal-downsampling 2-6), "
         "where the WHATSHAP_VERIF_TRACE hook records every instance handed to PedigreeDPTable with its result; each traced "
-        "instance goes through the same Coq checks. A case is non-trivial if it has >= 2 "
+        "instance goes through the same Coq checks. Plus an API-history stream: a ReadSet is "
+        "solved, then mutated IN PLACE through the public API (add_variant on an existing read at an existing or new column + "
+        "Read.sort, ReadSet.add + ReadSet.sort, ReadSet.subset) and solved again on the same object, 1-3 rounds; every round is "
+        "compared with the model on the current content of the read set. A case is non-trivial if it has >= 2 "
         "columns, >= 2 reads and some column with coverage >= 2; distinct = distinct instance.")
 TRUSTED = [
     "modelled, not verified: Gray-code enumeration with incremental cost update (update_partitioning; the model "
@@ -134,6 +137,117 @@ def run_impl(ctx, insts):
         rest = [k for k in todo if k not in done]
         if rest and (rc != 0 or len(done) < len(todo)):
             res[rest[0]] = {"crash": (err or "")[-400:], "rc": rc}
+            rest = rest[1:]
+        todo = rest
+    return res
+
+
+# ------------------------------------------------------------------ API-history driver (child process)
+CHILD_HIST = r'''
+import sys, json
+from whatshap.core import Read, ReadSet, Pedigree, PedigreeDPTable, NumericSampleIds, PhredGenotypeLikelihoods, Genotype
+
+def gt(n):
+    return Genotype([0, 0] if n == 0 else ([0, 1] if n == 1 else [1, 1]))
+
+def make_ids(d):
+    ids = NumericSampleIds()
+    for i in d.get("id_order", list(range(d["nind"]))):
+        ids["ind%d" % i]
+    return ids
+
+def solve(rs, d, fr):
+    ids = make_ids(d)
+    ped = Pedigree(ids)
+    for i in range(d["nind"]):
+        gts = [gt(g) for g in fr["gt"][i]]
+        gls = None
+        if d["mode"] == "gl":
+            gls = [PhredGenotypeLikelihoods([float(a) for a in tr]) for tr in fr["gl"][i]]
+        ped.add_individual("ind%d" % i, gts, gls)
+    for f, m, c in d["trios"]:
+        ped.add_relationship("ind%d" % f, "ind%d" % m, "ind%d" % c)
+    try:
+        t = PedigreeDPTable(rs, fr["recomb"], ped, d["mode"] == "gl", fr["positions"])
+        cost = t.get_optimal_cost()
+        part = t.get_optimal_partitioning()
+        srs, tv = t.get_super_reads()
+    except RuntimeError as e:
+        msg = str(e)
+        return {"err": "conflict" if "Mendelian conflict" in msg else "error:" + msg}
+    al = [[[(v.position, v.allele, v.quality) for v in s[h]] for h in (0, 1)] for s in srs]
+    return {"cost": cost, "part": part, "tv": tv, "sr": al}
+
+def index_of(rs, name):
+    for i in range(len(rs)):
+        if rs[i].name == name:
+            return i
+    raise KeyError(name)
+
+def run_hist(k, h):
+    d = h["base"]
+    ids = make_ids(d)
+    sample_of = {ids["ind%d" % i]: i for i in range(d["nind"])}
+    rs = ReadSet()
+    for r in d["reads"]:
+        rd = Read(r["name"], 50, 0, ids["ind%d" % r["sample"]])
+        for p, a, w in r["vars"]:
+            rd.add_variant(p, a, w)
+        rs.add(rd)
+    for rnd, step in enumerate(h["steps"]):
+        for op in step["ops"]:
+            if op[0] == "addvar":       # extend an existing read of the SAME read set in place
+                i = index_of(rs, op[1])
+                rs[i].add_variant(op[2], op[3], op[4])
+                rs[i].sort()
+            elif op[0] == "addread":
+                rd = Read(op[1], 50, 0, ids["ind%d" % op[2]])
+                for p, a, w in op[3]:
+                    rd.add_variant(p, a, w)
+                rs.add(rd)
+            elif op[0] == "sortset":
+                rs.sort()
+            elif op[0] == "subset":
+                rs = rs.subset([index_of(rs, n) for n in op[1]])
+        content = [[r.name, sample_of[r.sample_id], [[v.position, v.allele, v.quality] for v in r]] for r in rs]
+        out = solve(rs, d, step["frame"])
+        sys.stdout.write(json.dumps([k, rnd, {"reads": content, "out": out}]) + "\n")
+        sys.stdout.flush()
+
+for line in sys.stdin:
+    line = line.strip()
+    if not line:
+        continue
+    k, h = json.loads(line)
+    run_hist(k, h)
+    sys.stdout.write(json.dumps([k, -1, None]) + "\n")
+    sys.stdout.flush()
+'''
+
+
+def run_hists(ctx, hists):
+    '''Run API histories in child processes. Returns per history a list of per-round dicts
+    {"reads": content, "out": result}; a round on which the child died is {"crash": stderr tail, "rc": rc}
+    (later rounds of that history are not run).'''
+    res = [[] for _ in hists]
+    done = set()
+    todo = list(range(len(hists)))
+    while todo:
+        payload = "".join(json.dumps([k, hists[k]]) + "\n" for k in todo)
+        rc, out, err = util.run_py(ctx, CHILD_HIST, stdin=payload, timeout=1200)
+        for line in out.splitlines():
+            try:
+                k, rnd, r = json.loads(line)
+            except ValueError:
+                continue
+            if rnd == -1:
+                done.add(k)
+            elif len(res[k]) == rnd:
+                res[k].append(r)
+        rest = [k for k in todo if k not in done]
+        if rest:      # the child stopped inside history rest[0]
+            res[rest[0]].append({"crash": (err or "")[-400:], "rc": rc})
+            done.add(rest[0])
             rest = rest[1:]
         todo = rest
     return res
@@ -475,6 +589,166 @@ def gen_instance(rng, kind=None, mode=None, n=None, conflict=False, maxcov=None,
     if gls is not None:
         inst["gl"] = gls
     return inst
+
+
+# ------------------------------------------------------------------ API histories: solve, mutate in place, solve again
+def gen_history(rng):
+    """a fresh instance plus 1-3 rounds of in-place mutations of the SAME ReadSet through the public API (add a variant
+    to an existing read at an existing or a new column + Read.sort; add a read + ReadSet.sort; subset), a solve after
+    every round. Each step carries the frame (positions, genotypes/likelihoods, recombination costs) of its solve."""
+    kind = rng.choice(["single", "single", "two", "trio", "trio", "quartet"])
+    maxcov = {"single": 6, "two": 6, "trio": 5, "quartet": 4}[kind]
+    base = gen_instance(rng, kind=kind, n=rng.choice([2, 3, 4, 4, 5, 6]), maxcov=rng.randint(2, maxcov - 1), maxreads=6)
+    col = columns_of(base)
+    for r in base["reads"]:      # histories stay on phased positions only
+        r["vars"] = [v for v in r["vars"] if v[0] in col]
+    for k, r in enumerate(base["reads"]):
+        r["name"] = "r%d" % k
+    frame = {"positions": list(base["positions"]), "gt": [list(x) for x in base["gt"]], "recomb": list(base["recomb"])}
+    if base["mode"] == "gl":
+        frame["gl"] = [[list(t) for t in x] for x in base["gl"]]
+    reads = {r["name"]: {"sample": r["sample"], "vars": [list(v) for v in r["vars"]]} for r in base["reads"]}
+    steps = [{"ops": [], "frame": json.loads(json.dumps(frame))}]
+    nextname = len(reads)
+    wmax = 6
+
+    def cov_ok(extra=None):
+        pos = frame["positions"]
+        cov = {p: 0 for p in pos}
+        for r in list(reads.values()) + ([extra] if extra else []):
+            ps = [v[0] for v in r["vars"]]
+            for p in pos:
+                if min(ps) <= p <= max(ps):
+                    cov[p] += 1
+        return max(cov.values() or [0]) <= maxcov
+
+    def new_column():
+        """insert a new position with genotype / likelihood / recombination entries; returns the position or None"""
+        pos = frame["positions"]
+        cands = [q for a, b in zip(pos, pos[1:]) for q in range(a + 1, b)] + [pos[-1] + rng.randint(1, 9)] + \
+                ([pos[0] - 1] if pos[0] > 0 else [])
+        if not cands or len(pos) >= 8:
+            return None
+        q = rng.choice(cands)
+        k = sum(1 for p in pos if p < q)
+        pos.insert(k, q)
+        g1 = consistent_genotypes(rng, base["nind"], base["trios"], 1)
+        for i in range(base["nind"]):
+            frame["gt"][i].insert(k, g1[i][0])
+            if "gl" in frame:
+                tr = [rng.randint(0, 10) for _ in range(3)]
+                tr[rng.randrange(3)] = 0
+                frame["gl"][i].insert(k, tr)
+        frame["recomb"].insert(k, rng.randint(0, 8))
+        return q
+
+    for _ in range(rng.randint(1, 3)):
+        ops = []
+        need_sort = False
+        for _ in range(rng.randint(1, 3)):
+            x = rng.random()
+            names = sorted(reads)
+            if x < 0.5 and names:
+                name = rng.choice(names)
+                r = reads[name]
+                have = {v[0] for v in r["vars"]}
+                lo, hi = min(have), max(have)
+                pos = frame["positions"]
+                inside = [p for p in pos if lo < p < hi and p not in have]
+                k0, k1 = pos.index(lo), pos.index(hi)
+                outside = ([pos[k0 - 1]] if k0 > 0 else []) + ([pos[k1 + 1]] if k1 + 1 < len(pos) else [])
+                y = rng.random()
+                if y < 0.3:
+                    q = new_column()
+                elif y < 0.65 and inside:
+                    q = rng.choice(inside)
+                elif outside:
+                    q = rng.choice(outside)
+                else:
+                    q = rng.choice(inside) if inside else None
+                if q is None or q in have:
+                    continue
+                trial = {"sample": r["sample"], "vars": sorted(r["vars"] + [[q, 0, 0]])}
+                others = {n: v for n, v in reads.items() if n != name}
+                saved = dict(reads)
+                reads.clear()
+                reads.update(others)
+                ok = cov_ok(trial)
+                reads.clear()
+                reads.update(saved)
+                if not ok:
+                    continue
+                v = [q, rng.randrange(2), rng.randint(0, wmax)]
+                r["vars"] = sorted(r["vars"] + [v])
+                ops.append(["addvar", name, v[0], v[1], v[2]])
+                if q < lo:
+                    need_sort = True
+            elif x < 0.8:
+                pos = frame["positions"]
+                f = rng.randrange(len(pos))
+                l = min(len(pos) - 1, f + rng.choice([0, 1, 1, 2, 3]))
+                vs = [[pos[c], rng.randrange(2), rng.randint(0, wmax)] for c in range(f, l + 1)
+                      if c in (f, l) or rng.random() < 0.7]
+                nr = {"sample": rng.randrange(base["nind"]), "vars": vs}
+                if not cov_ok(nr) or len(reads) >= 9:
+                    continue
+                name = "r%d" % nextname
+                nextname += 1
+                reads[name] = nr
+                ops.append(["addread", name, nr["sample"], vs])
+                need_sort = True
+            elif len(reads) >= 3:
+                if need_sort:      # positions of a subset are given as indices of the current (sorted) set
+                    ops.append(["sortset"])
+                    need_sort = False
+                keep = [n for n in names if rng.random() < 0.75]
+                if not keep or len(keep) == len(names):
+                    continue
+                for n in names:
+                    if n not in keep:
+                        del reads[n]
+                ops.append(["subset", keep])
+        if need_sort:
+            ops.append(["sortset"])
+        if ops:
+            steps.append({"ops": ops, "frame": json.loads(json.dumps(frame)),
+                          "expect": {n: json.loads(json.dumps(v)) for n, v in reads.items()}})
+    steps[0]["expect"] = {r["name"]: {"sample": r["sample"], "vars": [list(v) for v in r["vars"]]} for r in base["reads"]}
+    return {"base": base, "steps": steps}
+
+
+def history_cases(ctx, hists, outs):
+    """(instance, result, replay) for every solved round; content mismatches and aborts are reported here"""
+    insts, results, replays = [], [], []
+    for h, rounds in zip(hists, outs):
+        base = h["base"]
+        ctx.tally("history.histories")
+        for rnd, (step, r) in enumerate(zip(h["steps"], rounds)):
+            rp = {"hist": h, "round": rnd}
+            if "crash" in r:
+                ctx.count(("hist", json.dumps(h, sort_keys=True), rnd), nontrivial=True)
+                ctx.tally("history.abort")
+                ctx.violation("pedmec:solver-abort-after-api-history",
+                              f"the solver process aborted (rc={r.get('rc')}: {r['crash'][-200:]}) in round {rnd} of the API history "
+                              f"{json.dumps(h['steps'][:rnd + 1])[:600]} on base {inst_key(base)[:400]}", rp)
+                break
+            got = {n: {"sample": smp, "vars": vs} for n, smp, vs in r["reads"]}
+            if got != step["expect"] or len(got) != len(r["reads"]):
+                ctx.violation("pedmec:readset-content", f"ReadSet content after the API history differs from the operations applied: "
+                              f"{json.dumps(r['reads'])[:300]} vs {json.dumps(step['expect'])[:300]}", rp)
+                break
+            inst = {"kind": "hist-" + base["kind"], "positions": step["frame"]["positions"], "nind": base["nind"],
+                    "trios": base["trios"], "mode": base["mode"], "gt": step["frame"]["gt"], "recomb": step["frame"]["recomb"],
+                    "reads": [{"sample": smp, "vars": vs} for n, smp, vs in r["reads"]], "id_order": base.get("id_order")}
+            if base["mode"] == "gl":
+                inst["gl"] = step["frame"]["gl"]
+            insts.append(inst)
+            results.append(r["out"])
+            replays.append(rp)
+            ctx.tally(f"history.round{rnd}")
+            for op in step["ops"]:
+                ctx.tally("history.op." + op[0])
+    return insts, results, replays
 
 
 def coverage(inst):
@@ -873,11 +1147,14 @@ def run(ctx):
     if pert == "cost":
         for r in c_results:
             r["cost"] += 1
+    # API histories: the same ReadSet object is solved, mutated in place through the public API and solved again
+    hists = [gen_history(rng) for _ in range(int(os.environ.get("WHVERIF_C01_HIST") or ctx.n(40, 600)))]
+    h_insts, h_results, h_replays = history_cases(ctx, hists, run_hists(ctx, hists))
     ngen = len(insts)
-    insts = insts + c_insts
-    results = results + c_results
-    replays = [None] * ngen + c_replays
-    traced = [False] * ngen + [True] * len(c_insts)
+    insts = insts + c_insts + h_insts
+    results = results + c_results + h_results
+    replays = [None] * ngen + c_replays + h_replays
+    traced = [False] * ngen + [True] * len(c_insts) + [False] * len(h_insts)
     failing = evaluate(ctx, insts, results, "generated", replays=replays, traced=traced)
     pairs = list(zip(insts, results))
     for inst, res in pairs[:3] + pairs[ngen - 1:ngen] + pairs[ngen:ngen + 2]:
@@ -931,6 +1208,16 @@ def replay(ctx, data):
         for name in ("L2cost", "L2alleles", "L2witness"):
             if failing[name]:
                 ctx.l2_disagreement(f"PedMEC model = PedigreeDPTable output ({name})", [{"inst": insts[k]} for k in failing[name]])
+    elif isinstance(data, dict) and "hist" in data:
+        hists = [data["hist"]]
+        insts, results, replays = history_cases(ctx, hists, run_hists(ctx, hists))
+        if insts:
+            failing = evaluate(ctx, insts, results, "replay", replays=replays)
+            ctx.log("replay (API history) outcomes:", [{k: v for k, v in r.items() if k != "sr"} for r in results], "failing checks:",
+                    {k: v for k, v in failing.items() if v})
+            for name in ("L2cost", "L2alleles", "L2witness"):
+                if failing[name]:
+                    ctx.l2_disagreement(f"PedMEC model = PedigreeDPTable output ({name})", [{"inst": insts[k]} for k in failing[name]])
     elif isinstance(data, dict) and "inst" in data:
         inst = strip(data["inst"])
         results, failing = check_cases(ctx, [inst], "replay", with_opt=small(inst) or len(inst["reads"]) <= 6)
